@@ -22,9 +22,9 @@ PROPS = {
             "Decides the data half of C03: every shipped @ispec/@ispec_ia32 format string is a well-formed sentence of the "
             "documented format language (as read by an interpreter written from the ispec docstring, independent of "
             "ispec.buildspec), and each specification hands its setup function exactly the named fields that function can "
-            "take. Does NOT decide that buildspec/decode compute fix/mask/extractors as documented (interpreter behaviour)."
+            "take; (R-DECODE) ispec.decode guards, slices and records the fixed part with one and the same bound and hands variable-length specs the whole rest of the input. Does NOT decide that buildspec computes fix/mask/extractors as documented for arbitrary format strings (interpreter behaviour)."
         ),
-        rules=[(R_spec.r_fmt, Q), (R_spec.r_sig, Q), (R_spec.r_dupfmt, T)],
+        rules=[(R_spec.r_fmt, Q), (R_spec.r_sig, Q), (R_spec.r_decode, Q), (R_spec.r_dupfmt, T)],
         exhaustive=True,
         level_text="partial (data half): every one of the ~5170 shipped ispec format strings is checked, exhaustively, to be a well-formed sentence of the documented format language and to deliver exactly the keyword arguments its setup function accepts; static table/signature cross-check, so it covers all specifications where the tests decode ~150 words",
         level_note="Trusted: CPython ast; vstat's format interpreter (written from the ispec docstring, validated once against buildspec's fix/mask on all 5073 importable specs by tools/validate_ispecmodel.py). Not decided: that ispec.buildspec/decode themselves extract the documented bits for all words and both fetch endiannesses.",
@@ -95,7 +95,7 @@ PROPS = {
             "(R-MAXLEN) cpu modules with '*'/'&' specs set disassemble.maxlen explicitly; (R-FMT) every spec has LEN>=8 "
             "(length >= 1). Does NOT decide equality of d(b), d(b[:n]), d(b[:n]+t) for all inputs nor over-reads inside ispec.decode."
         ),
-        rules=[(R_c05.r_pair, Q), (R_c05.r_tailchk, Q), (R_c11.r_rollback, Q), (R_spec.r_maxlen, Q), (R_spec.r_fmt, Q)],
+        rules=[(R_c05.r_pair, Q), (R_c05.r_tailchk, Q), (R_c11.r_rollback, Q), (R_spec.r_decode, Q), (R_spec.r_maxlen, Q), (R_spec.r_fmt, Q)],
         level_text="partial: def-use pairing and dominance on the CFG of all 221 tail-taking functions (69 with direct reads, 65 bounded slices) of every ISA; the tests decode a handful of ModRM forms and never a truncated immediate",
         level_note="Trusted: tail variables are tracked by the enumerated rebinding idioms (pack(), open slices, tuple split, helper return); crysp Bits slicing semantics (short slices do not raise); a piece that is only inspected in tests is look-ahead (undecided, not alarmed).",
         technique="def-use pairing + dominator/must-pass-through queries on statement CFGs, table lint of cpu modules",
@@ -183,7 +183,7 @@ PROPS = {
             "the condition-code table used by Jcc/SETcc/CMOVcc has the SDM truth tables (all 32 flag valuations). Does NOT decide "
             "ALU results, flag formulas, sub-register write rules, memory effects: anything needing a CPU or a reference interpreter."
         ),
-        rules=[(R_c06.r_isatab, Q), (R_c06.r_pc, Q), (R_c06.r_signed, Q), (R_c06.r_raw, Q), (R_c06.r_cctab, Q)],
+        rules=[(R_c06.r_isatab, Q), (R_c06.r_pc, Q), (R_c06.r_signed, Q), (R_c06.r_raw, Q), (R_c06.r_store, Q), (R_c06.r_cctab, Q)],
         level_text="partial: table = reference comparison over all 106 shipped RISC-V base specs and 32 condition-code rows, typestate counting of pc stores over the CFG of 74 semantics functions, hazard (read-after-write) scan over 68; the tests decode no RISC-V instruction at all",
         level_note="Trusted: ref/riscv_base.json and ref/x86_cc.json (written from the manuals); vstat.ispecmodel for bit positions; `//` in setup functions is crysp Bits concatenation LSB-first. A base instruction with no shipped spec is listed in the evidence, not alarmed.",
         technique="table = vendored reference comparison, typestate (store counting) on CFG, def-use hazard scan, exhaustive truth-table evaluation of a dict literal",
